@@ -230,7 +230,7 @@ def run(ctx):
     else:
         explore(ctx, h, drv, 600, 400, "t")
         explore(ctx, h, drv, 20, 10000, "tlong", big=False)
-    if ctx.proof_broken or ctx.corr_broken:
+    if (ctx.proof_broken or ctx.corr_broken) and not ctx.violations:
         for i in range(3):
             explore(ctx, h, drv, 80, 400, "search%d" % i)
 
